@@ -264,6 +264,29 @@ def r4(ctx, facts, cfg):
     ctx.ob("C17.R4f", "_cleanup_invalidated_loggers:flag-after-erase-and-sink-prune", ok and over_removed and bool(finds),
            "a blocking remover is released only after its logger was erased and sinks no longer referenced were destroyed, and only "
            "for the names reported as removed (order: %s, iterates removed names: %s, looked up by that name: %s)" % (ok, over_removed, bool(finds)), fn=bf)
+    # R4i: the release really happens: with loggers removed the pruning is reached, and a waiting remover found in the map is released
+    # on the 'found' outcome (never dereferencing the end iterator, never skipping a waiter that is there)
+    nonempty = []
+    found = []
+    for bid, b in g.blocks.items():
+        c = g.term_cond(bid)
+        if c is None:
+            continue
+        core, neg = core_and_neg(c)
+        cs_ = strip(core, casts=True)
+        if is_call(cs_, r"std::vector<.*>::empty$") and var_ref(call_obj(cs_)) in removed:
+            nonempty.append((bid, "T" if neg else "F"))  # label of 'something was removed'
+        if isnode(cs_) and is_call(cs_, r"operator(==|!=)") and any(is_call(x, r"unordered_map<.*>::end$") and is_this_field(call_obj(x), "_logger_removal_flags") for x in walk(cs_)):
+            eq = "operator==" in cs_["callee"]
+            lab = "F" if eq else "T"   # label of 'found'
+            found.append((bid, other(lab) if neg else lab))
+    ok_i = bool(nonempty) and bool(found) and not g.exists_path([g.entry_node], cu, avoid_edges=nonempty) and \
+        all(not g.exists_path([tnode(g, b)], [g.exit_node], avoid_nodes=cu, avoid_edges=[(b, other(l))]) for (b, l) in nonempty) and \
+        not g.exists_path([g.entry_node], sp, avoid_edges=found) and \
+        all(not g.exists_path([tnode(g, b)], [tnode(g, b), g.exit_node], avoid_nodes=sp, avoid_edges=[(b, other(l))]) for (b, l) in found)
+    ctx.ob("C17.R4i", "_cleanup_invalidated_loggers:waiter-released", ok_i,
+           "when loggers were removed the unused sinks are pruned on every path; a removal flag is stored to exactly on the 'found in "
+           "the pending map' outcome of its lookup, and on that outcome always (a blocked remove_logger_blocking is released)", fn=bf)
     er = [c for c in bf.calls(r"unordered_map<.*>::erase$") if is_this_field(call_obj(c), "_logger_removal_flags")]
     ok = bool(er) and not g.exists_path(sp, [g.exit_node], avoid_nodes=npos(bf, er)) is False or (bool(er) and all(g.exists_path(sp, [p]) for p in npos(bf, er)))
     ctx.ob("C17.R4g", "_cleanup_invalidated_loggers:flag-entry-erased", bool(er) and all(g.exists_path(sp, [p]) for p in npos(bf, er)),
